@@ -1038,6 +1038,7 @@ type v6Op struct {
 	Obs   bool     `json:"obs,omitempty"` // observe the state after every step of the schedule
 	Cancel bool    `json:"cancel,omitempty"` // add: the context is cancelled by a subscriber's Save inside the write transaction
 	Note  string   `json:"note,omitempty"`
+	Ranges [][2]uint32 `json:"ranges,omitempty"` // shelf: FindBetweenLC queries to run on the raw store
 }
 
 func v6Payload(pid *int) []byte {
@@ -1095,6 +1096,11 @@ func (x *v6Exec) run(op v6Op) string {
 	case "framing":
 		in, _ := base64.StdEncoding.DecodeString(op.Call.In)
 		return v6FramingLine(in)
+	case "hashlist":
+		in, _ := base64.StdEncoding.DecodeString(op.Call.In)
+		return v6HashListLine(in)
+	case "shelf":
+		return x.node.shelfDump(op.Ranges)
 	case "new":
 		if x.node != nil {
 			x.node.close()
@@ -1417,6 +1423,138 @@ func (g *v6Gen) framingMutants(exhaustive bool) {
 			g.framingOp("syn:byte", []byte("e30.Q"+string([]byte{byte(b)})+"Q.QQ"))
 			g.framingOp("syn:first-byte", append([]byte{byte(b)}, []byte("{}")...))
 		}
+	}
+}
+
+// ---- deepening round: the bytes in the store (dag.go clocks / documents / metadata shelves) and the range scan of FindBetweenLC
+
+// what the REAL parseHashList / appendHashList / bytesToClock / bytesToCount make of raw bytes
+func v6HashListLine(in []byte) string {
+	var src []byte
+	if len(in) > 0 {
+		src = in
+	}
+	parsed := parseHashList(src)
+	var rs []string
+	for _, h := range parsed {
+		rs = append(rs, v6Dig(h.Slice()))
+	}
+	var one hash.SHA256Hash
+	for i := range one {
+		one[i] = byte(i + 1)
+	}
+	app := appendHashList(src, one)
+	back := parseHashList(app)
+	line := fmt.Sprintf("n=%d nil=%v refs=%s app=%s back=%d", len(parsed), parsed == nil, strings.Join(rs, ","), v6Dig(app), len(back))
+	if len(in) >= 4 {
+		line += fmt.Sprintf(" clk=%d", bytesToClock(in[:4]))
+	}
+	if len(in) >= 8 {
+		line += fmt.Sprintf(" cnt=%d", bytesToCount(in[:8]))
+	}
+	return line
+}
+
+// raw dump of the three shelves dag.go writes, the REAL getRoots on the clocks shelf and the REAL findBetweenLC for the given ranges
+func (n *v6Node) shelfDump(ranges [][2]uint32) string {
+	ctx := context.Background()
+	var cl, doc, md, rng []string
+	roots := false
+	_ = n.inner.ReadShelf(ctx, clockShelf, func(r stoabs.Reader) error {
+		roots = getRoots(r) != nil
+		return r.Iterate(func(k stoabs.Key, v []byte) error {
+			var rs []string
+			for i := 0; i+32 <= len(v); i += 32 {
+				rs = append(rs, hex.EncodeToString(v[i:i+4]))
+			}
+			e := hex.EncodeToString(k.Bytes()) + ":" + strings.Join(rs, ",")
+			if len(v)%32 != 0 {
+				e += "+" + strconv.Itoa(len(v)%32)
+			}
+			cl = append(cl, e)
+			return nil
+		}, stoabs.BytesKey{})
+	})
+	sort.Strings(cl)
+	_ = n.inner.ReadShelf(ctx, transactionsShelf, func(r stoabs.Reader) error {
+		return r.Iterate(func(k stoabs.Key, _ []byte) error {
+			kb := k.Bytes()
+			if len(kb) != 32 {
+				doc = append(doc, "badkey:"+hex.EncodeToString(kb))
+			} else {
+				doc = append(doc, hex.EncodeToString(kb[:4]))
+			}
+			return nil
+		}, stoabs.BytesKey{})
+	})
+	sort.Strings(doc)
+	_ = n.inner.ReadShelf(ctx, metadataShelf, func(r stoabs.Reader) error {
+		for _, k := range []string{numberOfTransactionsKey, highestClockValue, headRefKey} {
+			v, err := r.Get(stoabs.BytesKey(k))
+			if err != nil || v == nil {
+				md = append(md, k+":-")
+			} else if k == headRefKey && len(v) == 32 {
+				md = append(md, k+":"+hex.EncodeToString(v[:4]))
+			} else {
+				md = append(md, k+":"+hex.EncodeToString(v))
+			}
+		}
+		return nil
+	})
+	for _, ab := range ranges {
+		var rs []string
+		err := n.inner.Read(ctx, func(tx stoabs.ReadTx) error {
+			txs, err := n.st.graph.findBetweenLC(tx, ab[0], ab[1])
+			for _, t := range txs {
+				rs = append(rs, strconv.Itoa(int(t.Clock()))+"/"+v6Short(t.Ref()))
+			}
+			return err
+		})
+		e := fmt.Sprintf("%d-%d:%s", ab[0], ab[1], strings.Join(rs, ","))
+		if err != nil {
+			e += "!err"
+		}
+		rng = append(rng, e)
+	}
+	return "CL=" + strings.Join(cl, ";") + " | DOC=" + strings.Join(doc, ",") + " | MD=" + strings.Join(md, ",") + " | roots=" + strconv.FormatBool(roots) + " | RNG=" + strings.Join(rng, ";")
+}
+
+func (g *v6Gen) shelfOp(nTx int) {
+	maxc := uint32(nTx + 2)
+	rs := [][2]uint32{{0, math.MaxUint32}, {0, 1}, {1, 2}}
+	for i := 0; i < 3; i++ {
+		a := uint32(g.rnd.Intn(int(maxc) + 1))
+		b := a + uint32(g.rnd.Intn(int(maxc)+2))
+		rs = append(rs, [2]uint32{a, b})
+	}
+	rs = append(rs, [2]uint32{maxc, maxc + 5}, [2]uint32{3, 2})
+	g.emit(v6Op{Op: "shelf", Ranges: rs})
+}
+
+func (g *v6Gen) hashListOps(n int) {
+	for i := 0; i < n; i++ {
+		var l int
+		switch g.rnd.Intn(6) {
+		case 0:
+			l = 32 * g.rnd.Intn(5)
+		case 1:
+			l = 32*g.rnd.Intn(5) + 1
+		case 2:
+			l = 32*(1+g.rnd.Intn(5)) - 1
+		case 3:
+			l = g.rnd.Intn(12)
+		default:
+			l = g.rnd.Intn(200)
+		}
+		b := make([]byte, l)
+		g.rnd.Read(b)
+		if g.rnd.Intn(4) == 0 && l >= 8 { // small counters
+			for j := 0; j < 7; j++ {
+				b[j] = 0
+			}
+			b[3] = byte(g.rnd.Intn(3))
+		}
+		g.emit(v6Op{Op: "hashlist", Call: &v6Call{In: base64.StdEncoding.EncodeToString(b), Note: "len%32=" + strconv.Itoa(l%32)}})
 	}
 }
 
@@ -2149,6 +2287,9 @@ func (g *v6Gen) history(steps int, schedules bool) {
 		}
 		if step%7 == 6 {
 			g.emit(v6Op{Op: "reopen"})
+		}
+		if step%5 == 4 || step == steps-1 {
+			g.shelfOp(len(dagTxs))
 		}
 	}
 	if schedules {
